@@ -359,10 +359,8 @@ Proof.
   intros Hq Hreq Hn Hb Hg. unfold exec_var. rewrite Hq.
   destruct (req =? tfs); [|reflexivity].
   cbn [eff_limit]. rewrite nrecords_eff_same by assumption.
-  unfold guard_var, guard_f12, guard_span, scanned in Hg. apply andb_prop in Hg as [Hg Hspan].
-  apply negb_true_iff in Hspan. rewrite Hspan.
-  change (last_span_garbage tfs st (fst rs) (option_map fst re) None) with false. cbv iota.
   rewrite (query_limit tfs 24 st (fst rs) (option_map fst re) d n) by lia.
+  unfold guard_var, scanned in Hg.
   unfold query at 1 2. destruct (s_years st) as [|y ys]; [reflexivity|].
   cbn [bindR].
   set (S := concat (file_rows tfs 24 (fst rs) (option_map fst re) st)) in *.
